@@ -399,7 +399,7 @@ func registerFlowUnits(prop string) {
 	}
 	for _, fc := range flowCases(prop, true) {
 		fc := fc
-		register(prop, "flow/"+strings.ReplaceAll(fc.id(), " ", "_"), !quick[fc.id()], func(c *Ctx) {
+		registerSharded(prop, "flow/"+strings.ReplaceAll(fc.id(), " ", "_"), !quick[fc.id()], 8, func(c *Ctx) {
 			bound := Pick(c, 1, 2)
 			maxDev := Pick(c, 4, 6)
 			c.ExploreDev(fc.id(), bound, maxDev, flowBody(fc, prop))
